@@ -20,6 +20,9 @@ CHECKS = {
  "C15": dict(category="exploration", technique="exhaustive enumeration of the finite domains against typed-in IUPAC tables and Biopython's NCBI codon tables",
    text="Every element of every finite domain (4096 IUPAC triplets x case, all alphabet letters, frames x shifts in [-30,30], all strand pairs/triples, all biotype names) is enumerated and compared with an independent reference; within those domains this is complete.",
    note="Trusts Biopython CodonTable ids 1/11 and Bio.Seq.complement; IUPAC tables typed into checks/c15.py.", ref="DESIGN.md §5 C15"),
+ "C16": dict(category="exploration", technique="exhaustive enumeration of +-3 bands around sampled bin boundaries of every level (all boundary pairs) plus Hypothesis-generated pairs up to 2^30, judged by a re-typed 'smallest containing bin' oracle and an independent never-hides relation",
+   text="All (start,end) with both ends within +-3 of boundaries of every level 2^17..2^29 (pairs of boundaries included) in both coordinate conventions, random pairs to 2^30 incl. out-of-range; bins(one=True) must equal the smallest standard bin containing the interval; bins(one=False) must contain every bin overlapping the range; for generated (query, interval) pairs that overlap, the interval's bin must be in the query's bin set.",
+   note="Bin numbering as documented in util/bins.py. The end-to-end form through collection queries is in C09.", ref="DESIGN.md §5 C16"),
 }
 PENDING_REASON = "check not built yet in this round (planned in DESIGN.md §5); not claimed"
 
